@@ -420,4 +420,50 @@ def r16_saved_values(ctx):
         ctx.functions.add(q)
 
 
-RULES = [('R16.11', r16_saved_values), ('R16.10', r16_inplace), ('R16.9', r16_attribute_edit), ('R16.8', r16_refused_edit), ('R16.7', r16_merge), ('R16.6', r16_6), ('R16.1', r16_1), ('R16.2', r16_2), ('R16.3', r16_3), ('R16.4', r16_4), ('R16.5', r16_5)]
+def r16_play_schedule(ctx):
+    """play behaves exactly as for a freshly built file with the same contents: it follows the times of the current contents -
+    the deltas of meta messages it does not hand out included (an edit that puts a delta on a marker moves the notes behind it
+    in iteration, length and play alike).  The schedule of play() against the times of iteration is decided in C13 (R13.4)."""
+    from . import c13
+    ctx.borrow(c13.r13_play, 'R16.12')
+
+
+def r16_save_leaves_contents(ctx):
+    """Results never depend on whether the file was saved earlier: a save that goes through leaves every message as it was, and
+    so does a save that is refused - a float delta is refused (or written), never rounded into the message that is in the file."""
+    ai = smf.make_interp(ctx)
+    cls = ctx.p.cls(MF, 'MidiFile')
+    o, save = ctx.p.lookup_method(cls, 'save')
+    ctx.fn(save)
+    w = ctx.where(save)
+    n = 0
+    for tval, tlabel in ((19.2, 'a float delta 19.2'), (3.0, 'a float delta 3.0'), (7, 'an integer delta')):
+        n += 1
+        holder = {}
+
+        def thunk():
+            mf = _mk_file(ctx, ai, [[('n', 10, 1), ('n', 5, 2)]])
+            m = mf.attrs['tracks'].items[0].items[1]
+            m.attrs['time'] = tval
+            m.stores.clear()
+            holder['m'] = m
+            try:
+                ai.call_function(save, [mf], {'file': wire.AFile(name='out')})
+                return 'saved'
+            except Exception as e:      # noqa: BLE001
+                from ..absint import AbsRaise
+                if isinstance(e, AbsRaise):
+                    return 'refused: ' + e.exc
+                raise
+        outs = ai.explore(thunk)
+        m = holder.get('m')
+        ok = len(outs) == 1 and outs[0].kind == 'return' and m is not None and m.attrs.get('time') == tval and type(m.attrs.get('time')) is type(tval) and not m.stores
+        ctx.require(ok, 'R16.13', f'save() of a file holding {tlabel}', w,
+                    f'the save ends {outs[0].value if len(outs) == 1 and outs[0].kind == "return" else outs!r}; afterwards the message has time '
+                    f'{m.attrs.get("time") if m is not None else "?"!r} (it was {tval!r}): saving edits the contents', construct=f'{save.qname}::save-edits-contents')
+    ctx.floor('R16.13', n, 3)
+    for q in ai.inlined:
+        ctx.functions.add(q)
+
+
+RULES = [('R16.13', r16_save_leaves_contents), ('R16.12', r16_play_schedule), ('R16.11', r16_saved_values), ('R16.10', r16_inplace), ('R16.9', r16_attribute_edit), ('R16.8', r16_refused_edit), ('R16.7', r16_merge), ('R16.6', r16_6), ('R16.1', r16_1), ('R16.2', r16_2), ('R16.3', r16_3), ('R16.4', r16_4), ('R16.5', r16_5)]
